@@ -12,16 +12,24 @@ namespace Proofs.Mvp60Sl
 open Model Model.Mvp60
 open Model.Seq (App Halt Arch stepArch runMvp1 mvp1Fetch)
 
-theorem cycle_simR (app : App) (hp : ProgR app) (a0 : Arch) (s s' : State) (a : Arch) (k : Nat) (ev : Event)
-    (hk : Proofs.Mvp4.seqIter app k a0 = some a) (hr : Rel app s a ∨ RelB app s a) (h : cycle app s = (s', ev)) :
-    TickPost app a0 s' ev := by
+theorem cycle_simG (app : App) (hp : ProgG app) (a0 : Arch) (s s' : State) (a : Arch) (k : Nat) (ev : Event)
+    (hk : Proofs.Mvp4.seqIter app k a0 = some a) (hr : RelG app s a ∨ RelB app s a ∨ RelF app s a) (h : cycle app s = (s', ev)) :
+    TickPostG app a0 s' ev := by
   unfold cycle at h
   split at h
   · rename_i r hr'
     subst h
-    exact cycleM_simR app hp a0 s _ a k _ hk hr hr'
+    exact cycleM_simG app hp a0 s _ a k _ hk hr hr'
   · simp only [Prod.mk.injEq] at h; obtain ⟨rfl, rfl⟩ := h; trivial
   · simp only [Prod.mk.injEq] at h; obtain ⟨rfl, rfl⟩ := h; trivial
+
+theorem cycle_simR (app : App) (hp : ProgR app) (a0 : Arch) (s s' : State) (a : Arch) (k : Nat) (ev : Event)
+    (hk : Proofs.Mvp4.seqIter app k a0 = some a) (hr : Rel app s a ∨ RelB app s a) (h : cycle app s = (s', ev)) :
+    TickPost app a0 s' ev :=
+  (cycle_simG app hp.toG a0 s s' a k ev hk
+    (by rcases hr with h1 | h1
+        · exact Or.inl (h1.strong (noCond_of_slr app hp.sl))
+        · exact Or.inr (Or.inl h1)) h).weak
 
 theorem cycle_sim (app : App) (hp : Prog app) (a0 : Arch) (s s' : State) (a : Arch) (k : Nat) (ev : Event)
     (hk : Proofs.Mvp4.seqIter app k a0 = some a) (hr : Rel app s a) (h : cycle app s = (s', ev)) :
@@ -38,14 +46,14 @@ def RunPost (app : App) (a0 : Arch) (r : Result) : Prop :=
   | some .err => ∃ k a, Proofs.Mvp4.seqIter app k a0 = some a ∧ ∃ c, stepArch Proofs.Mvp4.dc app a = .halt .err c
   | _ => True
 
-theorem runFrom_sim (app : App) (hp : ProgR app) (a0 : Arch) : ∀ (fuel : Nat) (s : State) (n k : Nat) (a : Arch),
-    Proofs.Mvp4.seqIter app k a0 = some a → (Rel app s a ∨ RelB app s a) → RunPost app a0 (runFrom app fuel s n)
+theorem runFrom_sim (app : App) (hp : ProgG app) (a0 : Arch) : ∀ (fuel : Nat) (s : State) (n k : Nat) (a : Arch),
+    Proofs.Mvp4.seqIter app k a0 = some a → (RelG app s a ∨ RelB app s a ∨ RelF app s a) → RunPost app a0 (runFrom app fuel s n)
   | 0, s, n, k, a, _, _ => by simp [runFrom, RunPost]
   | fuel + 1, s, n, k, a, hk, hr => by
     unfold runFrom
     cases hc : cycle app s with
     | mk s' ev =>
-      have hpost := cycle_simR app hp a0 s s' a k ev hk hr hc
+      have hpost := cycle_simG app hp a0 s s' a k ev hk hr hc
       cases ev with
       | running =>
         obtain ⟨k', a', hk', hr'⟩ := hpost
@@ -65,13 +73,15 @@ structure CtxOk (ctx : Model.Context) : Prop where
 
 theorem new_ok : ∃ u, Model.Mmu.new cfg = .ok u ∧ u.l1d.lines = [] := ⟨_, rfl, by decide⟩
 
-theorem init_rel (app : App) (ctx : Model.Context) (hc : CtxOk ctx) (eu wu : Nat) (hk : eu = wu) :
-    ∃ s0, init ctx eu wu = .ok s0 ∧ Rel app s0 ⟨ctx, 0#32⟩ := by
+theorem init_relG (app : App) (ctx : Model.Context) (hc : CtxOk ctx) (eu wu : Nat) (hk : eu = wu)
+    (hsid : ctx.sequenceID = 0 ∨ NoCond app) (hk1 : eu ≤ 1 ∨ NoCond app) :
+    ∃ s0, init ctx eu wu = .ok s0 ∧ RelG app s0 ⟨ctx, 0#32⟩ := by
   obtain ⟨u, hu, hl⟩ := new_ok
   refine ⟨{ ctx := ctx, mmu := u, eus := List.replicate eu {}, wus := List.replicate wu {} }, ?_, ?_⟩
   · simp only [init, hu, bind, Except.bind, pure, Except.pure]
   · refine ⟨⟨0, rfl, ?_⟩, ?_, ?_, ?_, rfl, Nat.zero_le _, Nat.zero_le _, ?_, rfl, rfl, rfl, Nat.zero_le _, ?_, Nat.zero_le _, hl, rfl,
-      (fun _ x hx => by cases hx), (fun e he => by cases he)⟩
+      (fun _ x hx => by cases hx), (fun e he => by cases he), ⟨hsid, (fun _ _ r hr => by cases hr), (fun _ _ ec hec => by cases hec)⟩,
+      (by simp only [List.length_replicate]; exact hk1)⟩
     · refine ⟨trivial, Nat.zero_le _, ⟨0, trivial, rfl, Or.inl rfl, ?_, ?_, ?_, ?_⟩, rfl, rfl, rfl⟩
       · show 0 + 0 + 0 ≤ app.instrs.length + 2; omega
       · intro _; exact Nat.zero_le _
@@ -87,17 +97,34 @@ theorem init_rel (app : App) (ctx : Model.Context) (hc : CtxOk ctx) (eu wu : Nat
     · intro e he; cases he
     · simp only [List.length_replicate, hk]
 
-/-- **MVP-6.0 refines the unpipelined machine on straight-line register-only programs that may `ret`**, for every number
-`K` of execute and write units, every installable initial context and every tick budget: if the run of the model ends (with
-`ret`, past the last instruction, or with the defined error of a `div`/`rem` by zero), MVP-1 ends the same way, and the final
-register file and memory of the model are literally those of MVP-1. -/
-theorem mvp60_slr_refines_mvp1 (app : App) (hp : ProgR app) (ctx : Model.Context) (hc : CtxOk ctx) (K fuel : Nat) (hk : Halt)
+theorem init_rel (app : App) (ctx : Model.Context) (hc : CtxOk ctx) (eu wu : Nat) (hk : eu = wu) :
+    ∃ s0, init ctx eu wu = .ok s0 ∧ Rel app s0 ⟨ctx, 0#32⟩ := by
+  obtain ⟨u, hu, hl⟩ := new_ok
+  refine ⟨{ ctx := ctx, mmu := u, eus := List.replicate eu {}, wus := List.replicate wu {} }, ?_, ?_⟩
+  · simp only [init, hu, bind, Except.bind, pure, Except.pure]
+  · refine ⟨⟨0, rfl, ?_⟩, fun hs hk1 => ?_⟩
+    · refine ⟨trivial, Nat.zero_le _, ⟨0, trivial, rfl, Or.inl rfl, ?_, ?_, ?_, ?_⟩, rfl, rfl, rfl⟩
+      · show 0 + 0 + 0 ≤ app.instrs.length + 2; omega
+      · intro _; exact Nat.zero_le _
+      · intro _; exact Nat.zero_le _
+      · intro h; cases h
+    · obtain ⟨s0, h0, hr0⟩ := init_relG app ctx hc eu wu hk hs.sid (by simpa only [List.length_replicate] using hk1)
+      simp only [init, hu, bind, Except.bind, pure, Except.pure, Except.ok.injEq] at h0
+      subst h0
+      exact hr0
+
+/-- **MVP-6.0 with at most one execute unit refines the unpipelined machine on the proved class** (register-only programs
+with conditional branches and `ret`, `Model.Mvp60.ProvedClass`): every installable initial context with `sequenceID = 0`
+and every tick budget — if the run of the model ends, MVP-1 ends the same way with literally the same registers and memory.
+For programs without conditional branches any number of units and any `sequenceID` will do. -/
+theorem mvp60_g_refines_mvp1 (app : App) (hp : ProgG app) (ctx : Model.Context) (hc : CtxOk ctx) (K fuel : Nat) (hk : Halt)
+    (hsid : ctx.sequenceID = 0 ∨ NoCond app) (hk1 : K ≤ 1 ∨ NoCond app)
     (hh : (run app ctx K K fuel).halt = some hk) (hnp : ∀ w, hk ≠ .panic w) :
     ∃ n, (runMvp1 app ⟨ctx, 0#32⟩ n).halt = some hk ∧
       (hk ≠ .err →
         (run app ctx K K fuel).final.ctx.Registers = (runMvp1 app ⟨ctx, 0#32⟩ n).final.ctx.Registers ∧
         (run app ctx K K fuel).final.ctx.Memory = (runMvp1 app ⟨ctx, 0#32⟩ n).final.ctx.Memory) := by
-  obtain ⟨s0, hinit, hR⟩ := init_rel app ctx hc K K rfl
+  obtain ⟨s0, hinit, hR⟩ := init_relG app ctx hc K K rfl hsid hk1
   have hrun : run app ctx K K fuel = runFrom app fuel s0 0 := by unfold run; rw [hinit]
   rw [hrun] at hh ⊢
   have hpost := runFrom_sim app hp ⟨ctx, 0#32⟩ fuel s0 0 0 ⟨ctx, 0#32⟩ rfl (Or.inl hR)
@@ -117,6 +144,18 @@ theorem mvp60_slr_refines_mvp1 (app : App) (hp : ProgR app) (ctx : Model.Context
     obtain ⟨h1, _⟩ := Proofs.Mvp4.run_halts mvp1Fetch app hit hs 0
     exact ⟨k + (0 + 1), h1, fun hne => absurd rfl hne⟩
   | panic w => exact absurd rfl (hnp w)
+
+/-- **MVP-6.0 refines the unpipelined machine on straight-line register-only programs that may `ret`**, for every number
+`K` of execute and write units, every installable initial context and every tick budget: if the run of the model ends (with
+`ret`, past the last instruction, or with the defined error of a `div`/`rem` by zero), MVP-1 ends the same way, and the final
+register file and memory of the model are literally those of MVP-1. -/
+theorem mvp60_slr_refines_mvp1 (app : App) (hp : ProgR app) (ctx : Model.Context) (hc : CtxOk ctx) (K fuel : Nat) (hk : Halt)
+    (hh : (run app ctx K K fuel).halt = some hk) (hnp : ∀ w, hk ≠ .panic w) :
+    ∃ n, (runMvp1 app ⟨ctx, 0#32⟩ n).halt = some hk ∧
+      (hk ≠ .err →
+        (run app ctx K K fuel).final.ctx.Registers = (runMvp1 app ⟨ctx, 0#32⟩ n).final.ctx.Registers ∧
+        (run app ctx K K fuel).final.ctx.Memory = (runMvp1 app ⟨ctx, 0#32⟩ n).final.ctx.Memory) :=
+  mvp60_g_refines_mvp1 app hp.toG ctx hc K fuel hk (Or.inr (noCond_of_slr app hp.sl)) (Or.inr (noCond_of_slr app hp.sl)) hh hnp
 
 /-- the statement of package R60 (programs without `ret`) -/
 theorem mvp60_sl_refines_mvp1 (app : App) (hp : Prog app) (ctx : Model.Context) (hc : CtxOk ctx) (K fuel : Nat) (hk : Halt)
